@@ -31,6 +31,19 @@ pub struct MFlat {
     pub b: Option<String>,
 }
 
+/// A method type whose own encoding is a *map* (a flattened member makes serde use `serialize_map` instead of
+/// `serialize_struct`): the envelope has to treat it like any other method type.
+#[derive(Debug, Serialize, Deserialize, PartialEq, Clone)]
+pub struct MFlatten {
+    pub method: String,
+    #[serde(flatten)]
+    pub rest: MFlattenRest,
+}
+#[derive(Debug, Serialize, Deserialize, PartialEq, Clone)]
+pub struct MFlattenRest {
+    pub parameters: MStructParams,
+}
+
 #[derive(Debug, PartialEq, Clone, ReplyError)]
 #[zlink(interface = "c.one", crate = "zlink_core")]
 pub enum E1 {
@@ -44,6 +57,12 @@ pub enum E1 {
         plain: bool,
     },
     Delta,
+    /// every field is optional: a value with nothing set still has fields, so it still has `parameters`
+    Eps {
+        a: Option<u32>,
+        #[zlink(rename = "bee")]
+        b: Option<String>,
+    },
 }
 
 #[derive(Debug, PartialEq, ReplyError)]
@@ -429,6 +448,21 @@ pub fn run_all(r: &mut Rng, stats: &mut Stats) {
         r,
         stats,
     );
+    call_cases(
+        "struct_flatten",
+        &[MFlatten { method: "m.F".into(), rest: MFlattenRest { parameters: MStructParams { i: 9, pad: "more".into() } } }],
+        r,
+        stats,
+    );
+    call_cases(
+        "map",
+        &[
+            std::collections::BTreeMap::from([("method".to_string(), json!("m.Map")), ("parameters".to_string(), json!({"k": [1, 2], "oneway": "no"}))]),
+            std::collections::BTreeMap::from([("method".to_string(), json!("m.Bare"))]),
+        ],
+        r,
+        stats,
+    );
     call_cases("struct_strict", &[MStruct { method: "m.N".into(), parameters: MStructParams { i: 3, pad: "q".into() } }], r, stats);
     // borrowed method types: decoded from the text directly (DeserializeOwned is not available)
     borrowed_call_cases(r, stats);
@@ -441,6 +475,9 @@ pub fn run_all(r: &mut Rng, stats: &mut Stats) {
             (E1::Gamma { first_name: "f".into(), count: Some(2), plain: true }, "Gamma", vec!["firstName", "n", "plain"]),
             (E1::Gamma { first_name: "g".into(), count: None, plain: false }, "Gamma", vec!["firstName", "n", "plain"]),
             (E1::Delta, "Delta", vec![]),
+            (E1::Eps { a: None, b: None }, "Eps", vec!["a", "bee"]),
+            (E1::Eps { a: Some(1), b: None }, "Eps", vec!["a", "bee"]),
+            (E1::Eps { a: None, b: Some("x".into()) }, "Eps", vec!["a", "bee"]),
         ],
         r,
         stats,
